@@ -277,6 +277,13 @@ ADDR = re.compile(rb'0x[0-9a-f]+')
 # the same address text as a list of character codes inside a dump: `0x` followed by hex digits
 ADDR_DUMP = re.compile(r'C48 C120(?: C(?:4[89]|5[0-7]|9[7-9]|10[0-2]))+')
 
+# the printed name of a generated symbol used as a NAME (hex-encoded in dumps and snapshots): `#<symbol-0x…>` with the
+# address digits masked, whatever precedes it
+SYMNAME = re.compile('233c73796d626f6c2d3078(?:3[0-9]|6[1-6])+3e')
+SYMNAME_MASKED = '#<symbol-0x?>'.encode().hex()
+SPELLED = re.compile(rb'%0 \(cons %x(?: \(cons %[0-9a-f?])+')
+SPELLED_MARK = b'%0 (cons %x (cons %?'
+
 def canon(line):
     """mask address text inside hex-encoded printed text (the only permitted variation)"""
     def fix(m):
@@ -284,10 +291,16 @@ def canon(line):
         if len(h) % 2:
             return h
         raw = bytes.fromhex(h)
+        if SPELLED.search(raw):
+            # the address text spelled out as character data inside a printed improper list — (cons %0 (cons %x (cons %5 … —:
+            # the digits collapse to one `%?` and, since every digit also contributes a closing parenthesis at the far end of
+            # the chain, closing parentheses are not compared in such a text
+            raw = SPELLED.sub(rb'%0 (cons %x (cons %?', raw).replace(b')', b'')
         if b'0x' not in raw:
-            return h
+            return raw.hex() if SPELLED_MARK in raw else h
         return ADDR.sub(b'0x?', raw).hex()
     line = HEXRUN.sub(fix, line)
+    line = SYMNAME.sub(SYMNAME_MASKED, line)
     line = ADDR_DUMP.sub('C48 C120 C63', line)
     if line.startswith('PANIC '):
         return 'PANIC'
